@@ -43,7 +43,8 @@ impl Palette {
             })
         };
 
-        if is_simple {
+        // Indices less than `nb_deltas` need delta prediction even if they are in the palette.
+        if is_simple && nb_deltas == 0 {
             return inverse_simple(palette, targets);
         }
 
